@@ -217,14 +217,14 @@ func (t *binary[V]) _delete(n *binaryNode[V], key string) (*binaryNode[V], V, bo
 	}
 
 	if n.char == key[0] {
-		if len(key) == 1 {
+		if len(key) > 1 {
+			n.left, val, ok = t._delete(n.left, key[1:])
+		} else if n.term {
 			t.size--
 			val, ok = n.val, true
 			n.val, n.term = zeroV, false
-		} else {
-			n.left, val, ok = t._delete(n.left, key[1:])
 		}
-		if n.left == nil {
+		if n.left == nil && !n.term {
 			n = n.right
 		}
 	} else {
